@@ -7,9 +7,10 @@
 -/
 import Chrono.Proofs.DateL
 import Chrono.Proofs.IsoL
+import Chrono.Proofs.C01GapsL
 
 namespace Chrono.Props.C01
-open Chrono Chrono.M Chrono.Spec Chrono.Proofs Chrono.Extracted
+open Chrono Chrono.M Chrono.Spec Chrono.Proofs Chrono.Extracted Chrono.Proofs.C01Gaps
 
 /-- the four lookup tables, as re-extracted from the Rust source on this run, are exactly what the
 independent calendar specification prescribes (every cell) -/
@@ -214,5 +215,231 @@ example : Date.from_isoywd_opt 2015 1 .mon = .ok (some (dateOfYo 2014 363)) ∧
     (Date.iso_week Date.MAX).isOk = true ∧
     Date.from_isoywd_opt MAX_YEAR 53 .mon = .ok none := by
   decide +kernel
+
+/-! ### Audit gaps (audit/C01.md, closed 2026-09-30; helper lemmas: Proofs/C01GapsL.lean)
+
+Accessor → constructor direction: every date of the range is in the image of each of the four
+constructors, reached from the fields its own accessors report (so each date *has* a form of each
+kind; `ymd_form_unique`, `yo_form_unique`, `isoywd_roundtrip` and `order_iso` say it has only one). -/
+
+/-- **ISO week-date form exists** (audit gap MEDIUM): for every date of the range, `iso_week` succeeds
+and `from_isoywd_opt` applied to the date's own ISO year, ISO week number and weekday returns exactly
+that date.  With `isoywd_roundtrip` (constructor → accessor) this makes `from_isoywd_opt` and
+`(iso_week, weekday)` mutually inverse on the whole range, and ties the accessor's specification
+(`isoThursday`) to the constructor's (`isoDayNum` / `isoWeekExists`) on every date, not only on the
+constructor's image. -/
+theorem iso_form_exists (y : Int) (o : Nat) (hy : MIN_YEAR ≤ y ∧ y ≤ MAX_YEAR)
+    (ho : 1 ≤ o ∧ o ≤ yearLen y) :
+    ∃ ywf, Date.iso_week (dateOfYo y o) = .ok ywf ∧
+      Date.from_isoywd_opt (IsoWeek.year ywf) (IsoWeek.week ywf).toNat (dateOfYo y o).weekday =
+        .ok (some (dateOfYo y o)) := iso_form_exists' y o hy ho
+
+/-- the specification-level core of `iso_form_exists`, for **every** day number `n` (no range): when
+the Thursday of `n`'s Monday-based week is the `ot`-th day of calendar year `Y`, ISO year `Y` has week
+`(ot − 1)/7 + 1` and the day of that week with `n`'s weekday is `n` -/
+theorem iso_specs_agree (Y : Int) (ot : Nat) (n : Int) (h1 : 1 ≤ ot) (h2 : ot ≤ yearLen Y)
+    (h : dayNumYo Y ot = isoThursday n) :
+    isoWeekExists Y (((ot - 1) / 7 + 1 : Nat) : Int) ∧
+    isoDayNum Y (((ot - 1) / 7 + 1 : Nat) : Int) (weekdayOf n) = n := thursday_form Y ot n h1 h2 h
+
+/-- year-month-day form exists: `from_ymd_opt (year d) (month d) (day d) = d` for every date -/
+theorem ymd_form_exists (y : Int) (o : Nat) (hy : MIN_YEAR ≤ y ∧ y ≤ MAX_YEAR)
+    (ho : 1 ≤ o ∧ o ≤ yearLen y) :
+    ∃ m dd, (dateOfYo y o).month = .ok m ∧ (dateOfYo y o).day = .ok dd ∧
+      Date.from_ymd_opt (dateOfYo y o).year m dd = .ok (some (dateOfYo y o)) := ymd_form_exists' y o hy ho
+
+/-- year-ordinal form exists: `from_yo_opt (year d) (ordinal d) = d` for every date -/
+theorem yo_form_exists (y : Int) (o : Nat) (hy : MIN_YEAR ≤ y ∧ y ≤ MAX_YEAR)
+    (ho : 1 ≤ o ∧ o ≤ yearLen y) :
+    Date.from_yo_opt (dateOfYo y o).year (dateOfYo y o).ordinal.toNat = .ok (some (dateOfYo y o)) :=
+  yo_form_exists' y o hy ho
+
+/-- day-number form exists: `from_num_days_from_ce_opt (num_days_from_ce d) = d` for every date -/
+theorem days_form_exists (y : Int) (o : Nat) (hy : MIN_YEAR ≤ y ∧ y ≤ MAX_YEAR)
+    (ho : 1 ≤ o ∧ o ≤ yearLen y) :
+    ∃ n, (dateOfYo y o).num_days_from_ce = .ok n ∧
+      Date.from_num_days_from_ce_opt n = .ok (some (dateOfYo y o)) := days_form_exists' y o hy ho
+
+/-- non-vacuity of the round trips: a date whose ISO year is the previous calendar year
+(2021-01-03 is 2020-W53-Sun), one whose ISO year is the next (2014-12-29 is 2015-W01-Mon), a leap
+day, and both range ends (MIN is the Thursday of W01 of MIN_YEAR, MAX the Monday of W01 of MAX_YEAR+1) -/
+example : Date.iso_week (dateOfYo 2021 3) = .ok (2020 * 1024 + 53 * 16 + flagsOf 2020) ∧
+    (dateOfYo 2021 3).weekday = .sun ∧
+    Date.from_isoywd_opt 2020 53 .sun = .ok (some (dateOfYo 2021 3)) ∧
+    Date.from_isoywd_opt 2015 1 .mon = .ok (some (dateOfYo 2014 363)) ∧
+    (dateOfYo 2024 60).month = .ok 2 ∧ (dateOfYo 2024 60).day = .ok 29 ∧
+    Date.from_ymd_opt 2024 2 29 = .ok (some (dateOfYo 2024 60)) ∧
+    Date.iso_week Date.MIN = .ok (MIN_YEAR * 1024 + 1 * 16 + flagsOf MIN_YEAR) ∧ Date.MIN.weekday = .thu ∧
+    Date.iso_week Date.MAX = .ok ((MAX_YEAR + 1) * 1024 + 1 * 16 + flagsOf (MAX_YEAR + 1)) ∧
+    Date.MAX.weekday = .mon ∧
+    Date.MAX.num_days_from_ce = .ok 95745399 ∧
+    Date.from_num_days_from_ce_opt 95745399 = .ok (some Date.MAX) := by decide +kernel
+
+/-- **date order on `Date.cmp`** (audit gap LOW; `Date.cmp` is the derived `Ord` the driver op `d.cmp`
+evaluates): the comparison of two dates is the comparison of their day numbers -/
+theorem order_cmp (y1 y2 : Int) (o1 o2 : Nat) (h1 : 1 ≤ o1 ∧ o1 ≤ yearLen y1)
+    (h2 : 1 ≤ o2 ∧ o2 ≤ yearLen y2) :
+    Date.cmp (dateOfYo y1 o1) (dateOfYo y2 o2) =
+      (if dayNumYo y1 o1 < dayNumYo y2 o2 then -1 else if dayNumYo y1 o1 > dayNumYo y2 o2 then 1 else 0) :=
+  cmp_spec y1 y2 o1 o2 h1 h2
+
+/-- **ISO-week order on `IsoWeek.cmp`** (audit gap LOW; `Date.isocmp a b` models
+`a.iso_week().cmp(&b.iso_week())`, the function the driver op `di.isocmp` evaluates): never panics,
+and the ISO weeks of two dates compare exactly like the Thursdays of their Monday-based weeks — i.e.
+chronologically, with equality exactly for days of the same week -/
+theorem iso_week_cmp (y1 y2 : Int) (o1 o2 : Nat) (hy1 : MIN_YEAR ≤ y1 ∧ y1 ≤ MAX_YEAR)
+    (hy2 : MIN_YEAR ≤ y2 ∧ y2 ≤ MAX_YEAR) (h1 : 1 ≤ o1 ∧ o1 ≤ yearLen y1)
+    (h2 : 1 ≤ o2 ∧ o2 ≤ yearLen y2) :
+    Date.isocmp (dateOfYo y1 o1) (dateOfYo y2 o2) =
+      .ok (if isoThursday (dayNumYo y1 o1) < isoThursday (dayNumYo y2 o2) then -1
+           else if isoThursday (dayNumYo y1 o1) > isoThursday (dayNumYo y2 o2) then 1 else 0) :=
+  isocmp_spec y1 y2 o1 o2 hy1 hy2 h1 h2
+
+/-- non-vacuity: all three outcomes of both comparisons (2021-01-03 and 2020-12-28 are different
+days of the same ISO week 2020-W53) -/
+example : Date.cmp (dateOfYo 2021 3) (dateOfYo 2020 363) = 1 ∧
+    Date.isocmp (dateOfYo 2021 3) (dateOfYo 2020 363) = .ok 0 ∧
+    Date.isocmp (dateOfYo 2021 4) (dateOfYo 2021 3) = .ok 1 ∧
+    Date.isocmp Date.MIN Date.MAX = .ok (-1) ∧ Date.cmp Date.MIN Date.MAX = -1 ∧
+    Date.cmp Date.MAX Date.MAX = 0 := by decide +kernel
+
+/-- **`year_ce`** (audit gap LOW; "year 0 = 1 BCE" in its user-visible form, `Datelike::year_ce` of
+src/traits.rs, model in Model/DateOps.lean shared with C08): for every date of the range the
+common-era view is `(true, y)` from year 1 on and `(false, 1 − y)` before, so year 0 is 1 BCE and
+year −1 is 2 BCE; never panics -/
+theorem year_ce_ok (y : Int) (o : Nat) (hy : MIN_YEAR ≤ y ∧ y ≤ MAX_YEAR) (ho : 1 ≤ o ∧ o ≤ yearLen y) :
+    (dateOfYo y o).year_ce = .ok (if y < 1 then (false, 1 - y) else (true, y)) :=
+  year_ce_spec y o hy (by have := yearLen_ge y; omega)
+
+example : (dateOfYo 0 366).year_ce = .ok (false, 1) ∧ (dateOfYo (-1) 1).year_ce = .ok (false, 2) ∧
+    (dateOfYo 1 1).year_ce = .ok (true, 1) ∧ Date.MIN.year_ce = .ok (false, 262144) ∧
+    isLeap 0 = true ∧ dayNumYo 0 366 = 0 := by decide +kernel
+
+/-- **`isoweek_delta` literals** (audit gap LOW): the model's `isoweek_delta` is the source's
+`let mut delta = flags & MASK; if delta < MIN { delta += ADD }` with the three literals as
+re-extracted on this run, on every flags value -/
+theorem isoweek_delta_literals_ok :
+    ∀ f < 16, (YearFlags.isoweek_delta f : Int) =
+      (if ((f &&& ISOWEEK_DELTA_MASK.toNat : Nat) : Int) < ISOWEEK_DELTA_MIN
+       then ((f &&& ISOWEEK_DELTA_MASK.toNat : Nat) : Int) + ISOWEEK_DELTA_ADD
+       else ((f &&& ISOWEEK_DELTA_MASK.toNat : Nat) : Int)) := by decide
+
+/-- **range ends** (`NaiveDate::MIN` / `NaiveDate::MAX`): no date of the range lies before MIN or
+after MAX; conversely every day number between the two is the day number of a date of the range; and
+there are exactly 191,491,529 of them (the count in the property's quantifier) -/
+theorem range_ends_ok :
+    (∀ (y : Int) (o : Nat), MIN_YEAR ≤ y ∧ y ≤ MAX_YEAR → 1 ≤ o ∧ o ≤ yearLen y →
+      dayNumYo MIN_YEAR 1 ≤ dayNumYo y o ∧ dayNumYo y o ≤ dayNumYo MAX_YEAR 365) ∧
+    (∀ n : Int, dayNumYo MIN_YEAR 1 ≤ n ∧ n ≤ dayNumYo MAX_YEAR 365 →
+      ∃ y o, MIN_YEAR ≤ y ∧ y ≤ MAX_YEAR ∧ 1 ≤ o ∧ o ≤ yearLen y ∧ dayNumYo y o = n) ∧
+    dayNumYo MAX_YEAR 365 - dayNumYo MIN_YEAR 1 + 1 = 191491529 ∧
+    Date.MIN.num_days_from_ce = .ok (dayNumYo MIN_YEAR 1) ∧
+    Date.MAX.num_days_from_ce = .ok (dayNumYo MAX_YEAR 365) ∧
+    yearLen MAX_YEAR = 365 :=
+  ⟨range_ends, range_onto, by decide, by decide +kernel, by decide +kernel, by decide⟩
+
+/-- **`add_days`** in C01's vocabulary (the proof is C03's `add_days_yo`, Proofs/DateArithL.lean —
+referenced, not duplicated): for every date of the range and every `i32` count, never panics; refused
+exactly when day `n + k` is outside [MIN, MAX]; otherwise the date of the range with day number
+`n + k` -/
+theorem add_days_ok (y : Int) (o : Nat) (k : Int) (hy : MIN_YEAR ≤ y ∧ y ≤ MAX_YEAR)
+    (ho : 1 ≤ o ∧ o ≤ yearLen y) (hk : -2147483648 ≤ k ∧ k ≤ 2147483647) :
+    ∃ r, Date.add_days (dateOfYo y o) k = .ok r ∧
+      (r = none ↔ (dayNumYo y o + k < dayNumYo MIN_YEAR 1 ∨ dayNumYo MAX_YEAR 365 < dayNumYo y o + k)) ∧
+      (∀ d, r = some d → ∃ y' o', d = dateOfYo y' o' ∧ MIN_YEAR ≤ y' ∧ y' ≤ MAX_YEAR ∧ 1 ≤ o' ∧
+        o' ≤ yearLen y' ∧ dayNumYo y' o' = dayNumYo y o + k) := by
+  obtain ⟨r, h1, h2⟩ := add_days_spec (dateOfYo y o) k (inv_of_yo y o hy ho).1 hk
+  exact ⟨r, h1, shift_yo y o k r hy ho h2⟩
+
+/-- `checked_add_days` / `checked_sub_days` (every `u64` count), same vocabulary; proofs are C03's
+`checked_add_days_spec` / `checked_sub_days_spec` -/
+theorem checked_days_ok (y : Int) (o : Nat) (c : Int) (hy : MIN_YEAR ≤ y ∧ y ≤ MAX_YEAR)
+    (ho : 1 ≤ o ∧ o ≤ yearLen y) (hc : 0 ≤ c ∧ c ≤ 18446744073709551615) :
+    (∃ r, Date.checked_add_days (dateOfYo y o) c = .ok r ∧
+      (r = none ↔ (dayNumYo y o + c < dayNumYo MIN_YEAR 1 ∨ dayNumYo MAX_YEAR 365 < dayNumYo y o + c)) ∧
+      (∀ d, r = some d → ∃ y' o', d = dateOfYo y' o' ∧ MIN_YEAR ≤ y' ∧ y' ≤ MAX_YEAR ∧ 1 ≤ o' ∧
+        o' ≤ yearLen y' ∧ dayNumYo y' o' = dayNumYo y o + c)) ∧
+    (∃ r, Date.checked_sub_days (dateOfYo y o) c = .ok r ∧
+      (r = none ↔ (dayNumYo y o + -c < dayNumYo MIN_YEAR 1 ∨ dayNumYo MAX_YEAR 365 < dayNumYo y o + -c)) ∧
+      (∀ d, r = some d → ∃ y' o', d = dateOfYo y' o' ∧ MIN_YEAR ≤ y' ∧ y' ≤ MAX_YEAR ∧ 1 ≤ o' ∧
+        o' ≤ yearLen y' ∧ dayNumYo y' o' = dayNumYo y o + -c)) := by
+  have hinv := (inv_of_yo y o hy ho).1
+  obtain ⟨r1, a1, a2⟩ := checked_add_days_spec (dateOfYo y o) c hinv hc
+  obtain ⟨r2, b1, b2⟩ := checked_sub_days_spec (dateOfYo y o) c hinv hc
+  exact ⟨⟨r1, a1, shift_yo y o c r1 hy ho a2⟩, ⟨r2, b1, shift_yo y o (-c) r2 hy ho b2⟩⟩
+
+example : Date.add_days (dateOfYo 2023 365) 1 = .ok (some (dateOfYo 2024 1)) ∧
+    Date.add_days Date.MAX 1 = .ok none ∧ Date.add_days Date.MIN 191491528 = .ok (some Date.MAX) ∧
+    Date.checked_sub_days (dateOfYo 2024 60) 60 = .ok (some (dateOfYo 2023 365)) ∧
+    Date.checked_add_days Date.MIN 4294967296 = .ok none := by decide +kernel
+
+/-- **0-based twins** (`Datelike::{month0, day0, ordinal0}` of `NaiveDate`, each "the 1-based accessor
+minus one" on `u32`): for every date (any year) none of the subtractions underflows (no panic) and
+the results are one less than the calendar form's month, day and ordinal -/
+theorem zero_based_ok (y : Int) (o : Nat) (ho : 1 ≤ o ∧ o ≤ yearLen y) :
+    (dateOfYo y o).month0 = .ok (monthOfYo y o - 1) ∧ (dateOfYo y o).day0 = .ok (dayOfYo y o - 1) ∧
+    (dateOfYo y o).ordinal0 = .ok (o - 1) ∧ 1 ≤ monthOfYo y o ∧ 1 ≤ dayOfYo y o := zero_based' y o ho
+
+example : (dateOfYo 2024 60).month0 = .ok 1 ∧ (dateOfYo 2024 60).day0 = .ok 28 ∧
+    (dateOfYo 2024 60).ordinal0 = .ok 59 ∧ Date.MIN.month0 = .ok 0 ∧ Date.MAX.day0 = .ok 30 ∧
+    Date.month0 ⟨0⟩ = .panic := by decide +kernel
+
+/-- **the domain device is the representation invariant**: a packed word satisfies `DateInv` (year in
+range, ordinal exists in that year, low bits are the year's flags — Spec/DateSpec.lean) exactly when it
+is `dateOfYo y o` for a year of the range and an existing ordinal.  So the theorems of this file,
+quantified over `dateOfYo y o`, are about exactly the values with the invariant (which C15 proves every
+constructor and operation returns). -/
+theorem date_invariant_iff (d : Date) :
+    DateInv d ↔ ∃ (y : Int) (o : Nat), d = dateOfYo y o ∧ MIN_YEAR ≤ y ∧ y ≤ MAX_YEAR ∧ 1 ≤ o ∧
+      o ≤ yearLen y := by
+  constructor
+  · intro h
+    obtain ⟨he, p1, p2, _⟩ := inv_eq d h
+    exact ⟨_, _, he, h.1, h.2.1, p1, p2⟩
+  · rintro ⟨y, o, rfl, a, b, c, e⟩
+    exact (inv_of_yo y o ⟨a, b⟩ ⟨c, e⟩).1
+
+example : DateInv Date.MIN ∧ DateInv Date.MAX ∧ ¬ DateInv Date.BEFORE_MIN ∧ ¬ DateInv Date.AFTER_MAX ∧
+    ¬ DateInv ⟨2023 * 8192 + 366 * 16 + flagsOf 2023⟩ ∧ ¬ DateInv ⟨2024 * 8192 + 60 * 16 + 0⟩ := by
+  decide +kernel
+
+/-- **week 1 contains 4 January** on the accessor itself: for every year of the range, 4 January has
+ISO year = calendar year and ISO week 1 (the clause of the statement, read off `iso_week` directly) -/
+theorem jan4_in_week1 (y : Int) (hy : MIN_YEAR ≤ y ∧ y ≤ MAX_YEAR) :
+    ∃ ywf, Date.iso_week (dateOfYo y 4) = .ok ywf ∧ IsoWeek.year ywf = y ∧ IsoWeek.week ywf = 1 := by
+  have hl := yearLen_ge y
+  obtain ⟨ywf, Y, ot, h1, h2, h3, h4, h5, h6, _, _⟩ := iso_week_spec y 4 hy ⟨by omega, by omega⟩
+  have hk : ∃ k : Nat, 1 ≤ k ∧ k ≤ 7 ∧ dayNumYo y k = isoThursday (dayNumYo y ((4 : Nat) : Int)) := by
+    unfold isoThursday weekdayOf dayNumYo
+    generalize daysBeforeYear y = D
+    refine ⟨(7 - ((D + 4 + 6) % 7)).toNat, ?_, ?_, ?_⟩ <;> omega
+  obtain ⟨k, k1, k2, k3⟩ := hk
+  obtain ⟨u1, u2⟩ := yo_form_unique Y y ot k ⟨h2, h3⟩ ⟨k1, by omega⟩ (by rw [h4, k3])
+  subst u1 u2
+  refine ⟨ywf, h1, h5, ?_⟩
+  rw [h6]
+  have : (ot - 1) / 7 + 1 = 1 := by omega
+  rw [this]; rfl
+
+example : Date.iso_week (dateOfYo 2021 4) = .ok (2021 * 1024 + 1 * 16 + flagsOf 2021) ∧
+    Date.iso_week (dateOfYo 2021 3) = .ok (2020 * 1024 + 53 * 16 + flagsOf 2020) ∧
+    IsoWeek.week (2021 * 1024 + 1 * 16 + flagsOf 2021) = 1 := by decide +kernel
+
+/-- **successor on the user-visible accessors**: when `succ_opt` returns a date, its `weekday()` is the
+`Weekday::succ` of the date's and it compares greater (`Date.cmp = -1`); `succ_ok` gives the day number -/
+theorem succ_weekday (y : Int) (o : Nat) (hy : MIN_YEAR ≤ y ∧ y ≤ MAX_YEAR) (ho : 1 ≤ o ∧ o ≤ yearLen y)
+    (d' : Date) (h : Date.succ_opt (dateOfYo y o) = .ok (some d')) :
+    d'.weekday = (dateOfYo y o).weekday.succ ∧ Date.cmp (dateOfYo y o) d' = -1 :=
+  succ_weekday' y o hy ho d' h
+
+/-- the predecessor has the previous weekday and compares smaller -/
+theorem pred_weekday (y : Int) (o : Nat) (hy : MIN_YEAR ≤ y ∧ y ≤ MAX_YEAR) (ho : 1 ≤ o ∧ o ≤ yearLen y)
+    (d' : Date) (h : Date.pred_opt (dateOfYo y o) = .ok (some d')) :
+    d'.weekday = (dateOfYo y o).weekday.pred ∧ Date.cmp (dateOfYo y o) d' = 1 :=
+  pred_weekday' y o hy ho d' h
+
+example : Date.succ_opt (dateOfYo 2023 365) = .ok (some (dateOfYo 2024 1)) ∧
+    (dateOfYo 2023 365).weekday = .sun ∧ (dateOfYo 2024 1).weekday = .mon ∧
+    Date.pred_opt (dateOfYo 2024 1) = .ok (some (dateOfYo 2023 365)) := by decide +kernel
 
 end Chrono.Props.C01
